@@ -29,6 +29,9 @@
  * over the same operations with everything in one hash bucket. */
 #include "c14_common.h"
 
+/* ABT_pool_pop_timedwait is deprecated but public; it is what reaches p_pop_timedwait */
+#pragma GCC diagnostic ignored "-Wdeprecated-declarations"
+
 /* ----------------------------------------------------------------- configs --*/
 enum { M_SEQ, M_STACK, M_CONC };
 enum { J_WAITSCHED, J_LEGACY, J_LEGACY_X, J_SELFSET, J_BULK, J_STACKED };
@@ -51,7 +54,7 @@ static const cfg_t cfgs[] = {
       "legacy-loop main scheduler, one bucket, FIFO pop", 1, M_SEQ, 3, 0, 1,
       POL_FIFO, 0, 0 },
     { "K: stacked legacy-loop scheduler in UA/UL/B serving the other user pool; "
-      "run_unit with the popped pool or with B", 1, M_STACK, 0, 0, 1, POL_FIFO, 0,
+      "run_unit with the popped pool or with the third pool", 1, M_STACK, 0, 0, 1, POL_FIFO, 0,
       0 },
     { "I: ES1 BASIC_WAIT on user pools with pop_wait | primary creates+frees | X "
       "translates parked unit", 1, M_CONC, 0, J_WAITSCHED, 1, POL_FIFO, 0, 0 },
@@ -225,7 +228,7 @@ static ABT_thread PRIM;
 static int ppool = -1;            /* model: pool of the primary ULT, -1 = main */
 static int xrun_once;             /* 1: the scheduler runs the next unit with the
                                      next pool; 2: and create_unit fails */
-static int n_xrun, n_selfset;
+static int n_xrun, n_selfset, n_failed;
 
 static int pool_id(ABT_pool p)
 {
@@ -402,7 +405,9 @@ static void seq_action(int id)
         fail_next_create = 1;
         create_failed = 0;
         int rc = ABT_self_set_associated_pool(POOLS[to]);
-        abtmc_check(create_failed, "harness", "create_unit not called");
+        abtmc_check(create_failed, "callback_count",
+                    "create_unit of the new pool was not called (log: %s)", logbuf);
+        n_failed++;
         abtmc_check(rc != ABT_SUCCESS, "failed_create_ignored",
                     "ABT_self_set_associated_pool(%d) returned success although "
                     "create_unit failed", to);
@@ -464,7 +469,9 @@ static ABT_pool seq_pick(int stacked, ABT_pool from, ABT_unit u, ABT_thread t)
         fail_next_create = 1;
         create_failed = 0;
         int rc = ABT_xstream_run_unit(u, POOLS[to]);
-        abtmc_check(create_failed, "harness", "create_unit not called");
+        abtmc_check(create_failed, "callback_count",
+                    "create_unit of the new pool was not called (log: %s)", logbuf);
+        n_failed++;
         abtmc_check(rc != ABT_SUCCESS, "failed_create_ignored",
                     "ABT_xstream_run_unit(unit, pool %d) returned success although "
                     "create_unit failed", to);
@@ -501,6 +508,12 @@ static ABT_pool seq_pick(int stacked, ABT_pool from, ABT_unit u, ABT_thread t)
  *      tell the scheduler to run the next unit it pops with the next pool
  *      (| failing) and yield
  *  9   join the oldest named unit, free it */
+static const char *const opname[10] = {
+    "op_create", "op_create", "op_create", "op_thread_set_pool",
+    "op_unit_pop_push", "op_pop_push_threads", "op_waiting_pop",
+    "op_primary_self_set", "op_yield_arm_xrun", "op_join_free" }; /* the engine
+    keeps 12 counters per execution */
+
 static void scenario_seq(void)
 {
     h_init();
@@ -575,7 +588,9 @@ static void scenario_seq(void)
                     fail_next_create = 1;
                     create_failed = 0;
                     int rc = ABT_thread_set_associated_pool(W[w], POOLS[to]);
-                    abtmc_check(create_failed, "harness", "create_unit not called");
+                    abtmc_check(create_failed, "callback_count",
+                    "create_unit of the new pool was not called (log: %s)", logbuf);
+        n_failed++;
                     abtmc_check(rc != ABT_SUCCESS, "failed_create_ignored",
                                 "ABT_thread_set_associated_pool(pool %d) returned "
                                 "success although create_unit failed", to);
@@ -628,7 +643,9 @@ static void scenario_seq(void)
                     fail_next_create = 1;
                     create_failed = 0;
                     int rc = ABT_pool_push(POOLS[to], u);
-                    abtmc_check(create_failed, "harness", "create_unit not called");
+                    abtmc_check(create_failed, "callback_count",
+                    "create_unit of the new pool was not called (log: %s)", logbuf);
+        n_failed++;
                     abtmc_check(rc != ABT_SUCCESS, "failed_create_ignored",
                                 "ABT_pool_push(pool %d, unit) returned success "
                                 "although create_unit failed", to);
@@ -756,7 +773,9 @@ static void scenario_seq(void)
                     fail_next_create = 1;
                     create_failed = 0;
                     int rc = ABT_self_set_associated_pool(pool_h(to));
-                    abtmc_check(create_failed, "harness", "create_unit not called");
+                    abtmc_check(create_failed, "callback_count",
+                    "create_unit of the new pool was not called (log: %s)", logbuf);
+        n_failed++;
                     abtmc_check(rc != ABT_SUCCESS, "failed_create_ignored",
                                 "ABT_self_set_associated_pool(pool %d) returned "
                                 "success although create_unit failed", to);
@@ -830,6 +849,7 @@ static void scenario_seq(void)
             break; /* inapplicable: the history ends here */
         hist[nh++] = (char)('0' + op);
         hist[nh++] = (char)('a' + sub);
+        abtmc_stat(opname[op], 1);
         if (dc >= 0)
             abtmc_check(n_create - c0 == dc && n_free - f0 == df, "callback_count",
                         "op %d.%d: create_unit called %d times (expected %d), "
@@ -876,24 +896,24 @@ static void scenario_seq(void)
     hist[nh] = 0;
     abtmc_tracef("history %s", hist);
     abtmc_stat("ops", nh / 2);
-    abtmc_observe("work_units=%d units_created=%d chain=%d selfset=%d xrun=%d "
-                  "many=%d%d wait=%d%d rm=%d", nw, n_create, maxchain,
-                  n_selfset > 2 ? 2 : n_selfset, n_xrun > 0, n_pop_many > 0,
-                  n_push_many > 0, n_pop_wait > 0, n_pop_timedwait > 0,
-                  n_remove > 0);
+    abtmc_stat("self_set_calls", n_selfset);
+    abtmc_stat("cross_pool_run_units", n_xrun);
+    abtmc_stat("failed_create_units", n_failed);
+    abtmc_observe("work_units=%d units_created=%d chain=%d", nw,
+                  n_create > 4 ? 4 : n_create, maxchain);
     h_finalize();
     abtmc_check(abtmc_ledger_live() == 0, "leak",
                 "%ld live allocations after ABT_finalize", abtmc_ledger_live());
 }
 
 /* ================================================== K: stacked scheduler ===*/
-static int k_cross;
+static int k_cross, k_z;
 static ABT_pool stack_pick(int stacked, ABT_pool from, ABT_unit u, ABT_thread t)
 {
     (void)u;
     (void)t;
     if (stacked && k_cross)
-        return POOLS[PB];
+        return POOLS[k_z];
     return from;
 }
 
@@ -916,10 +936,12 @@ static void scenario_stack(void)
 
     abtmc_window_begin();
     int y = abtmc_choose(3, ABTMC_B_FREE);   /* pool that gets the scheduler */
-    k_cross = abtmc_choose(2, ABTMC_B_FREE); /* it runs its units with B */
+    k_cross = abtmc_choose(2, ABTMC_B_FREE); /* it runs its units with the
+                                                third pool z */
     int moved = abtmc_choose(2, ABTMC_B_FREE); /* the scheduler's own work unit
                                                   is moved to another pool */
     int x = y == PA ? PL : PA;               /* the pool it serves */
+    k_z = NPOOL - x - y;                     /* user pool if y is B, else B */
     /* the main scheduler serves everything but x */
     ABT_pool mp[4];
     int nmp = 0;
@@ -946,7 +968,7 @@ static void scenario_stack(void)
     if (moved) {
         /* the scheduler's work unit is a work unit like any other: pop it and
          * push it to the next pool that the main scheduler serves */
-        int z = (y + 1) % NPOOL == x ? (y + 2) % NPOOL : (y + 1) % NPOOL;
+        int z = k_z;
         ABT_unit u = ABT_UNIT_NULL;
         int c1 = n_create, f1 = n_free;
         OK(ABT_pool_pop(POOLS[y], &u));
